@@ -187,6 +187,7 @@ def evalRV (s : St) : RV → Option Tree
   | .null => some (.sc .null)
   | .lit l => litTree s l
   | .rd p => read s p
+  | .call p => read s p      -- a call that returns what a place holds yields that value
 
 def stepOpt (s : St) : Op → Option St
   | .setVar x r => (evalRV s r).map (s.setVar x)
